@@ -438,7 +438,7 @@ func actCipherEncrypt(e *Env, a J) J {
 		return J{"infra": "cipher_encrypt: no object"}
 	}
 	r := readerOf(gj(a, "rand"))
-	pt := octOf(gox(a, "pt"))
+	pt := []byte(gox(a, "pt")) // the caller's own buffer (it has spare capacity): what it holds is the caller's, before and after
 	ptCopy := octOf(pt)
 	var ct []byte
 	var err error
